@@ -225,7 +225,7 @@ pub fn dispatch(op: &str, a: &[String]) -> Option<String> {
             Some(s)
         }
         // tablerows <opts> <mdhex> -> ok <rows of the first table incl. header> <cells> <cells without children>
-        "tablerows" => {
+        "tablerows6" => {
             let o = opts::decode(&a[0]);
             let md = String::from_utf8(unhex(&a[1])).expect("utf-8");
             let arena = Arena::new();
